@@ -167,6 +167,22 @@ func (h c13impl) bad(lane, what string, id string) {
 	h.viol("handler-saw-foreign-bytes:"+lane, what, map[string]any{"id": id})
 }
 
+var c13assets sync.Map // id/n -> []byte, owned by the handlers
+
+// asset returns the handler's cached content for id, after checking that
+// nobody has written into it since it was created.
+func (h c13impl) asset(id string, n int) []byte {
+	key := fmt.Sprintf("%s/%d", id, n)
+	v, _ := c13assets.LoadOrStore(key, prf(id, n))
+	data := v.([]byte)
+	if !bytes.Equal(data, prf(id, n)) {
+		h.bad("handler-owned-buffer-modified", fmt.Sprintf("the content the handler keeps for %s (%d bytes, served from the same slice every time) has been overwritten", id, n), id)
+		// repair it so that one corruption is one finding
+		c13assets.Store(key, prf(id, n))
+	}
+	return data
+}
+
 func (h c13impl) Unary(ctx context.Context, md protoreflect.MethodDescriptor, in proto.Message) (proto.Message, error) {
 	switch md.Name() {
 	case "Echo":
@@ -200,6 +216,11 @@ func (h c13impl) Unary(ctx context.Context, md protoreflect.MethodDescriptor, in
 		r := in.ProtoReflect()
 		id := r.Get(r.Descriptor().Fields().ByName("a")).String()
 		n := int(r.Get(r.Descriptor().Fields().ByName("n")).Int())
+		if strings.HasPrefix(id, "static-") {
+			// content the handler owns and serves again and again: the
+			// very same slice goes into every reply
+			return &httpbody.HttpBody{ContentType: "application/x-verif", Data: h.asset(id, n)}, nil
+		}
 		return &httpbody.HttpBody{ContentType: "application/x-verif", Data: prf(id, n)}, nil
 	}
 	return nil, status.Error(codes.Unimplemented, "n/a")
@@ -324,6 +345,9 @@ func (h c13impl) Stream(md protoreflect.MethodDescriptor, ss grpc.ServerStream) 
 		id := r.Get(r.Descriptor().Fields().ByName("a")).String()
 		n := int(r.Get(r.Descriptor().Fields().ByName("n")).Int())
 		data := prf(id, n)
+		if strings.HasPrefix(id, "static-") {
+			data = h.asset(id, n)
+		}
 		if strings.HasPrefix(id, "w-") {
 			w, err := larking.AsHTTPBodyWriter(ss, &httpbody.HttpBody{ContentType: "application/x-verif"})
 			if err != nil {
@@ -762,6 +786,33 @@ var lanes = []lane{
 		}
 		if !bytes.Equal(body, prf(id, size)) {
 			return fmt.Sprintf("download of %s/%d returned %d bytes that are not its payload", id, size, len(body))
+		}
+		return ""
+	}},
+	{"httpbody/download-static", func(e *c13env, id string, size int, lr *rand.Rand) string {
+		// a handful of assets the handler keeps in memory, downloaded over
+		// and over (unary HttpBody and streamed chunks) between all the
+		// other traffic
+		k := lr.Intn(8)
+		n := []int{100, 1000, 4096, 20000, 65536, 300, 64, 1500}[k]
+		aid := fmt.Sprintf("static-%d", k)
+		path := "/v1/downloadu/" + aid
+		if lr.Intn(3) == 0 {
+			path = "/v1/download/" + aid
+		}
+		resp, bad := serveChecked(e, wire.BodyRequest("GET", path, fmt.Sprintf("n=%d", n), nil, nil))
+		if bad != "" {
+			return bad
+		}
+		if resp.Code != 200 {
+			return fmt.Sprintf("status %d: %.200s", resp.Code, resp.Body)
+		}
+		body, bad := respBody(resp)
+		if bad != "" {
+			return bad
+		}
+		if !bytes.Equal(body, prf(aid, n)) {
+			return fmt.Sprintf("download of the static asset %s/%d returned %d bytes that are not its content", aid, n, len(body))
 		}
 		return ""
 	}},
